@@ -141,6 +141,9 @@ class Tiles:
 
             if 0 <= _in < N and _out < N + n:
                 return slice(_in, min(_out, N))
+            if i.start >= i.stop and 0 <= _in < N + n:
+                # empty selection, also the only kind there is on an empty axis
+                return slice(min(_in, N), min(_in, N))
             raise IndexError(f"Index {idx} is out of range")
 
         idx = norm_slice_2d(idx, self._shape.yx)
@@ -189,14 +192,14 @@ class Tiles:
     @property
     def chunks(self) -> Chunks2d:
         """Dask compatible chunk rerpesentation."""
-        NY, NX = self.shape.yx
-        ny, nx = self.tile_shape((0, 0)).yx
-        ny_, nx_ = self.tile_shape((NY - 1, NX - 1))
 
-        return (
-            (ny,) * (NY - 1) + (ny_,),
-            (nx,) * (NX - 1) + (nx_,),
-        )
+        def _axis(N: int, n: int, total: int) -> Tuple[int, ...]:
+            if N == 0:  # no tiles along an empty axis
+                return ()
+            return (n,) * (N - 1) + (total - (N - 1) * n,)
+
+        y, x = map(_axis, self._shape.yx, self._tile_shape.yx, self._base_shape.yx)
+        return (y, x)
 
     def locate(self, pix: SomeIndex2d) -> Tuple[int, int]:
         """Tile index from pixel coordinate."""
@@ -252,9 +255,13 @@ class VariableSizedTiles:
         return VariableSizedTiles((y, x))
 
     def __getitem__(self, idx: Union[SomeIndex2d, ROI]) -> Tuple[slice, slice]:
-        idx = norm_slice_2d(idx, self.shape.yx)
+        roi = norm_slice_2d(idx, self.shape.yx)
+        for a, i in zip(self._offsets, roi):
+            # negative positions would wrap around a second time inside numpy
+            if i.start < 0 or i.stop >= len(a):
+                raise IndexError(f"Index {idx} is out of range")
         y, x = (
-            slice(int(a[i.start]), int(a[i.stop])) for a, i in zip(self._offsets, idx)
+            slice(int(a[i.start]), int(a[i.stop])) for a, i in zip(self._offsets, roi)
         )
         return (y, x)
 
@@ -313,7 +320,8 @@ class VariableSizedTiles:
     def __dask_tokenize__(self):
         return (
             "odc.geo.roi.VariableSizedTiles",
-            *self._offsets,
+            # not the arrays themselves: ``str(array)`` is abbreviated for large ones
+            *(tuple(a.tolist()) for a in self._offsets),
         )
 
     def __str__(self) -> str:
